@@ -10,6 +10,8 @@
 (***************************************************************************)
 EXTENDS Orbiter
 
+\* genesis (re)initialisation replaces the module's state wholesale
+ReplacesState(S) == S.in.t \in {"reimport", "gendoc"}
 IsRecv(S)  == S.in.t = "recv"
 IsAdmin(S) == S.in.t = "admin"
 IsOrbiterPacket(S) == IsRecv(S) /\ ForOrbiter(S.in)
@@ -144,7 +146,7 @@ Prop_C08(S) ==
   /\ (HasPayload(S) /\ Blocked(S.pre, Dst(S)) => ~S.ok)
   /\ (HasPayload(S) /\ S.ctl.nopause.run /\ S.ctl.nopause.ok
         /\ ~Blocked(S.pre, Dst(S)) /\ ~ActionPaused(S.pre, S.in) => S.ok)
-  /\ (~(IsPauseMsg(S) /\ S.ok) /\ S.in.t # "reimport" => PauseSets(S.post) = PauseSets(S.pre))
+  /\ (~(IsPauseMsg(S) /\ S.ok) /\ ~ReplacesState(S) => PauseSets(S.post) = PauseSets(S.pre))
   /\ (IsPauseMsg(S) /\ S.ok =>
         CASE S.in.rpc = "PauseProtocol" ->
                S.post.pProto = S.pre.pProto \cup {S.in.pid} /\ S.post.pCC = S.pre.pCC
@@ -167,7 +169,7 @@ Prop_C09(S) ==
         ~S.ok /\ \A a \in {"F1", "F2", "U"}, d \in Denom : S.post.bal[a][d] = S.pre.bal[a][d])
   /\ (HasPayload(S) /\ S.ctl.nopause.run /\ S.ctl.nopause.ok
         /\ ~Blocked(S.pre, Dst(S)) /\ ~ActionPaused(S.pre, S.in) => S.ok)
-  /\ (~(IsAdmin(S) /\ S.in.rpc \in ActionRpcs /\ S.ok) /\ S.in.t # "reimport" => S.post.pAct = S.pre.pAct)
+  /\ (~(IsAdmin(S) /\ S.in.rpc \in ActionRpcs /\ S.ok) /\ ~ReplacesState(S) => S.post.pAct = S.pre.pAct)
   /\ (IsAdmin(S) /\ S.in.rpc = "PauseAction" /\ S.ok => S.post.pAct = S.pre.pAct \cup {S.in.aid})
   /\ (IsAdmin(S) /\ S.in.rpc = "UnpauseAction" /\ S.ok => S.post.pAct = S.pre.pAct \ {S.in.aid})
   /\ (S.hasQ =>
@@ -213,7 +215,7 @@ Prop_C12(S) ==
        IN Stats(S.post) = Stats(AddTransfer(S.pre, "IBC", SrcCp(S.in.chan), Dst(S)[1], Dst(S)[2], cin, cout))
   \* refused transfers, non-orbiter traffic, admin messages, deposits: unchanged (successful orbiter
   \* packets outside the abstraction - mutated memos, odd amount spellings - are not judged here)
-  ELSE S.in.t # "reimport" /\ ~(IsOrbiterPacket(S) /\ S.ok) => Stats(S.post) = Stats(S.pre)
+  ELSE ~ReplacesState(S) /\ ~(IsOrbiterPacket(S) /\ S.ok) => Stats(S.post) = Stats(S.pre)
 
 (* C18 The passthrough payload size limit in force is enforced *)
 Limit(s) == IF s.hasParams THEN s.maxPT ELSE 0
@@ -222,9 +224,24 @@ Prop_C18(S) ==
   /\ (HasPayload(S) /\ S.in.fw.pt > 0 /\ S.in.fw.pt <= Limit(S.pre) /\ S.ctl.nopt.run => S.ok = S.ctl.nopt.ok)
   /\ (IsAdmin(S) /\ S.in.rpc = "UpdateParams" /\ S.ok =>
         S.post.hasParams /\ S.post.maxPT = (IF S.in.v < 0 THEN BIG ELSE S.in.v))
-  /\ (~(IsAdmin(S) /\ S.in.rpc = "UpdateParams" /\ S.ok) /\ S.in.t # "reimport" =>
+  /\ (~(IsAdmin(S) /\ S.in.rpc = "UpdateParams" /\ S.ok) /\ ~ReplacesState(S) =>
         Limit(S.post) = Limit(S.pre))
   /\ (S.hasQ => S.q.qParamsOk /\ S.q.qParams = Limit(S.post))
+
+(* C20 Cross-chain identifiers are canonical and mean what transfers record *)
+Prop_C20(S) == S.in.t = "ident" =>
+  LET R == S.idres  pid == S.in.pid IN
+  /\ \A i \in DOMAIN R : LET e == R[i] IN
+        /\ (pid \in {"CCTP", "HYP"} /\ (e.pauseOk \/ e.queryOk \/ e.genesisOk \/ e.statsOk \/ e.newOk) => CanonU32(e.chars))
+        /\ (e.newOk => e.parseOk /\ e.parsePid = pid /\ e.parseCp = e.cp)       \* Parse(ID(pair)) = pair
+        /\ (e.pauseOk /\ e.probeRun /\ e.ctlOk => ~e.probeOk)                  \* a successful pause covers what it names
+        /\ (e.pauseOk => e.unpauseOk)
+  /\ \A i, j \in DOMAIN R : R[i].cp # R[j].cp => R[i].id # R[j].id              \* distinct pairs, distinct forms
+  /\ \A i, j \in DOMAIN R : (pid \in {"CCTP", "HYP"} /\ R[i].pauseOk /\ R[j].pauseOk /\ R[i].dom >= 0 /\ R[i].dom = R[j].dom)
+                              => R[i].cp = R[j].cp                              \* no two spellings of one destination
+
+(* C17b Any genesis accepted by validation can be initialised *)
+Prop_C17b(S) == S.in.t = "gendoc" => (S.gen.validateOk => S.gen.initOk)
 
 (* C14 No input makes the receive path panic; malformed payloads are refused *)
 Prop_C14(S) == IsRecv(S) =>
